@@ -86,6 +86,10 @@ def r3(ctx, rep, res):
             continue
         ctrl = [s for s in info["steps"] if s.startswith("ctrl<=")]
         good = bool(ctrl) and int(ctrl[0][6:]) >= 0x1F
+        for st in info["steps"]:
+            if st.startswith("reject:"):
+                rs = [[int(a), int(b)] for a, b in (x.split("-") for x in st[7:].split(","))]
+                good = good or any(a == 0 and b >= 0x1F for a, b in rs)
         if not grammar_admits_ctrl:
             rep.ok("C07-R3", lab, "src/parser.rs", "the grammar itself admits no control character in string / shorthand spans (atomic token rules); validator steps: %s" % ",".join(info["steps"]))
             continue
